@@ -66,6 +66,9 @@ class C20(Monitor):
                 # flow control violations are the peer's fault whatever the stream state
                 if f.type == C.DATA and f.fc_len and f.fc_len > s.snap['conn_recv']:
                     return
+                # so is a header block of more frames than the CONTINUATION cap (C27)
+                if f.block_frames is not None and len(f.block_frames) > w.cfg['knobs'].get('CONTINUATION_BACKLOG', 64):
+                    return
                 self.fail('connection-error', '%s on a stream this endpoint had reset caused %s' % (f.name, s.exc['type']), s,
                           sid=f.sid, where=s.exc['where'], code=s.exc['code'], pushed=pre.pushed,
                           collected=self.gc_after_reset[s.ep])
